@@ -46,6 +46,19 @@ class RecordingCallback:
         return f"<cb {self.cid}>"
 
 
+class _EqRecorder(RecordingCallback):
+    """All recorders of this class compare equal (think of dataclass-like recorders that start out with the same
+    contents); they are still different objects."""
+
+    def __eq__(self, other):
+        return isinstance(other, _EqRecorder)
+
+    __hash__ = object.__hash__
+
+    def handle(self, name, doc):
+        return RecordingCallback.__call__(self, name, doc)
+
+
 def _doc_key(name, doc):
     if name in ("datum",):
         return doc.get("datum_id")
@@ -127,7 +140,16 @@ class Driver:
         self.res = res
         recfg = case.get("re", {})
         self.world = build_world(sim, case.get("devices", {}))
-        self.callbacks = {cid: RecordingCallback(sim, cid, spec) for cid, spec in sorted(case.get("callbacks", {}).items())}
+        self.callbacks = {}
+        for cid, spec in sorted(case.get("callbacks", {}).items()):
+            if spec.get("bound_method"):
+                # subscribed as a bound method of an object that compares equal to its siblings (value equality,
+                # identity hash): each subscription is still a subscription of its own
+                owner = _EqRecorder(sim, cid, spec)
+                self._cb_owners = getattr(self, "_cb_owners", []) + [owner]  # the registry only keeps weak references
+                self.callbacks[cid] = owner.handle
+            else:
+                self.callbacks[cid] = RecordingCallback(sim, cid, spec)
         self.ctx = Ctx(sim, self.world, callbacks=self.callbacks)
         self.md = copy.deepcopy(recfg.get("md", {}))
         kwargs = {}
